@@ -326,6 +326,10 @@ def real_step(cfg, op):
     elif name == 'materialize':
       from fiddle._src import materialize
       materialize.materialize_defaults(cfg)
+    elif name == 'setattr2':
+      shared = to_py(op[3])          # the SAME object assigned to two arguments
+      setattr(cfg, op[1], shared)
+      setattr(cfg, op[2], shared)
     elif name == 'update_callable':
       fdl.update_callable(cfg, targets.make_fn(op[1]), drop_invalid_args=op[2])
     elif name == 'assign':
@@ -445,6 +449,10 @@ def gen_tag_ops(r, sig, fresh, n_ops):
       ops.append(['cleartags', key])
     elif x < 0.88:
       ops.append(['settags', key, r.sample(range(len(targets.TAGS)), r.randint(0, 3))])
+    elif x < 0.895 and len(named) >= 2:
+      a, b = r.sample(named, 2)
+      tags = r.sample(range(len(targets.TAGS)), r.randint(1, 2))
+      ops.append(['setattr2', a, b, {'tv': tags, 'in': next(fresh.c) if r.random() < 0.7 else None}])
     elif x < 0.91:
       ops.append(['materialize'])
     elif x < 0.95:
